@@ -27,7 +27,7 @@ func init() {
 		e.RParenSync()
 	})
 	register("C08", Meta{
-		Explanation: "Static necessary conditions of transparency: updateImports has a path to its final return that writes nothing to the tree (no unconditional sort, re-spacing or re-parenthesising: each such write is guarded by a flag set only where a spec is appended, or by a comparison of kept and original spec counts), and no store precedes an error return; decorateSelectorExpr feeds all 11 inner decoration/spacing slots of a qualified identifier, in source order, to mergeDecorations and stores the results on the identifier's Start, X, End, keeping the selector's own Before/After; mergeDecorations agrees, for every (state, slot class) pair, with the restorer's spacing state machine (applySpace/applyDecorations), so the merged lists render with the same line breaks as the original selector; restoreIdent renders exactly the sequence of restore's SelectorExpr case. Does not decide byte equality nor the resolvers' accuracy.",
+		Explanation: "Static necessary conditions of transparency: updateImports has a path to its final return that writes nothing to the tree (no unconditional sort, re-spacing or re-parenthesising: each such write is guarded by a flag set only where a spec is appended, or by a comparison of kept and original spec counts), and no store precedes an error return; decorateSelectorExpr feeds all 11 inner decoration/spacing slots of a qualified identifier, in source order, to mergeDecorations and stores the results on the identifier's Start, X, End, keeping the selector's own Before/After; mergeDecorations agrees, for every (state, slot class) pair, with the restorer's spacing state machine (applySpace/applyDecorations), so the merged lists render with the same line breaks as the original selector; an alias written in the source is kept even when it equals the package's name (findAlias drops an alias only when none was requested); restoreIdent renders exactly the sequence of restore's SelectorExpr case. Does not decide byte equality nor the resolvers' accuracy.",
 		NotCovered:  []string{"byte equality through go/printer", "accuracy of user-supplied resolvers", "re-decoration giving identical Path annotations (depends on the resolver)"},
 	}, func(e *Env) {
 		e.RPureUpdateImports()
@@ -36,6 +36,7 @@ func init() {
 		e.RQuietRearrange()
 		e.RPureRestore()
 		e.RDiscovery()
+		e.RAliasFlow()
 		e.RMerge()
 		e.RRestoreIdent()
 		e.C05Space()
